@@ -37,10 +37,11 @@ def fixtures():
         db1 = sc.make_db([2, 1, 3], sc.id_size_of(cfg1), rnd)
         fx[s] = {"cfg": sc.workflow_config(s, db), "db": db, "absent": sc.rand_kw(rnd, 7),
                  "decoy_cfg": sc.fit_config(s, cfg1, db1), "decoy_db": db1}
-    # one service whose index (upload) and whose largest result (download) are both above 1 MiB, the default frame limit of
-    # the websockets library: 1300 postings of 1 KiB identifiers under one keyword
+    # one service whose index (upload) and whose largest result (download) are both above 16 MiB (1 MiB is the default
+    # frame limit of the websockets library; 2, 4, 8, 16 MiB are what somebody "bounding" it would write): 17000 postings
+    # of 1 KiB identifiers under one keyword
     cfgb = dict(sc.default_config(BIG_SCHEME), param_identifier_size=1024)
-    dbb = sc.make_db([1300, 2], 1024, rnd)
+    dbb = sc.make_db([17000, 2], 1024, rnd)
     fx["BIG"] = {"cfg": sc.workflow_config(BIG_SCHEME, dbb) | {"param_identifier_size": 1024}, "db": dbb, "absent": sc.rand_kw(rnd, 7),
                  "decoy_cfg": None, "decoy_db": None, "scheme": BIG_SCHEME}
     fx["BIG"]["cfg"] = sc.fit_config(BIG_SCHEME, cfgb, dbb)
